@@ -18,6 +18,7 @@ MUTANTS = [
     {"id": "revert/e31b81b-cache-key", "kind": "break", "revert": "e31b81b", "props": ["C10"]},
     {"id": "revert/35c0eeb-org-symbol", "kind": "break", "revert": "35c0eeb", "props": ["C10"]},
     {"id": "revert/bd5a0ce-mvl-signed-count", "kind": "break", "revert": "bd5a0ce", "props": ["C04", "C03"]},
+    {"id": "revert/c568b2c-lcd-start-line", "kind": "break", "revert": "c568b2c", "props": ["C15"]},
 
     # --- behaviour-preserving edits: every check must stay silent ---------------------------------------------------
     {"id": "neutral/ruff-format-width-140", "kind": "neutral", "props": ALL,
@@ -28,6 +29,13 @@ MUTANTS = [
      "cmd": "find sc62015/core/src sc62015/rustcore -name '*.rs' 2>/dev/null | xargs rustfmt --edition 2021 --config max_width=70 || true"},
     {"id": "neutral/line-shift", "kind": "neutral", "props": ALL,
      "cmd": "for f in $(find sc62015 pce500 -name '*.py' -not -path '*/third_party/*'); do printf '# shifted\n# shifted\n# shifted\n' | cat - $f > $f.tmp && mv $f.tmp $f; done; for f in $(find sc62015 -name '*.rs'); do printf '// shifted\n// shifted\n' | cat - $f > $f.tmp && mv $f.tmp $f; done"},
+
+    {"id": "neutral/python-temporaries", "kind": "neutral", "props": ALL,
+     "cmd": "/venv/bin/python /verif/selftest/neutral_temps.py . both"},
+    {"id": "neutral/python-local-renames", "kind": "neutral", "props": ALL,
+     "cmd": "/venv/bin/python /verif/selftest/neutral_rename.py ."},
+    {"id": "neutral/rust-local-renames", "kind": "neutral", "props": RUST,
+     "cmd": "/venv/bin/python /verif/selftest/neutral_rust_rename.py ."},
 
     # --- targeted behaviour-preserving refactors around the rules added after seeding ---------------------------------
     {"id": "neutral/org-arg-temporary", "kind": "neutral", "props": ["C10"], "edits": [
